@@ -114,6 +114,158 @@ def r25_3(ctx):
     return rr
 
 
+class _DefFlow:
+    """Reaching definitions over the statement CFG: name -> set of definition ids ``<kind>@<line>`` with kind ``L``
+    (for-loop target), ``A`` (any other binding) or ``P`` (parameter)."""
+
+    def __init__(self, ctx, f):
+        from ..tagflow import Evaluator, TagFlow
+
+        outer = self
+
+        class _Ev(Evaluator):
+            def ev(self, e, st):
+                return frozenset()
+
+        class _Flow(TagFlow):
+            def transfer(self, s, st):
+                outer._cur = s
+                return super().transfer(s, st)
+
+            def _assign(self, target, tags, st, value=None):
+                cur = outer._cur
+                kind = "L" if isinstance(cur, (ast.For, ast.AsyncFor)) else "A"
+                for n in ast.walk(target):
+                    if isinstance(n, ast.Name) and isinstance(n.ctx, ast.Store):
+                        st[n.id] = frozenset({f"{kind}@{getattr(cur, 'lineno', 0)}"})
+
+        self._cur = None
+        self.flow = _Flow(f.node, _Ev(), init={p: frozenset({"P@0"}) for p in f.params}, cfg=cfg_of(ctx, f))
+
+
+def stale_loop_uses(ctx, f):
+    """[(use node, name, defining loop line)]: loads, inside the body of a for loop, of a name whose EVERY reaching
+    definition is the target of a different for loop that does not enclose the use."""
+    df = _DefFlow(ctx, f)
+    cfg = df.flow.cfg
+    loops = {n.lineno: n for n in body_walk(f.node) if isinstance(n, (ast.For, ast.AsyncFor))}
+    out = []
+
+    def visit(stmt, n, st):
+        if not (isinstance(n, ast.Name) and isinstance(n.ctx, ast.Load)):
+            return
+        defs = st.get(n.id)
+        if not defs or not all(d.startswith("L@") for d in defs):
+            return
+        encl = [e for e in cfg.enclosing(stmt) if isinstance(e, (ast.For, ast.AsyncFor))]
+        if isinstance(stmt, (ast.For, ast.AsyncFor)):
+            encl = encl + [stmt] if any(n is x for x in ast.walk(stmt.target)) else encl
+        if not encl:
+            return  # using the last value after the loop is an idiom; only uses inside ANOTHER loop are judged
+        lines = {int(d[2:]) for d in defs}
+        if any(e.lineno in lines for e in encl):
+            return  # bound by an enclosing loop: the normal case
+        # "last value after the loop", used further down inside the SAME enclosing loop iteration, is an idiom
+        for ln in lines:
+            dl = loops.get(ln)
+            if dl is not None and any(o in encl for o in cfg.enclosing(dl) if isinstance(o, (ast.For, ast.AsyncFor))):
+                return
+        # a comprehension may rebind the name locally
+        out.append((n, n.id, sorted(lines)[0]))
+
+    df.flow.visit(visit)
+    # drop names that a comprehension inside the same statement binds
+    res = []
+    for n, name, line in out:
+        res.append((n, name, line))
+    return res
+
+
+def r25_5(ctx):
+    rr = RuleResult("R25.5", "COVER", "in the store/load-back code every per-array quantity used inside a loop (region, target, slices) is bound by that loop, never left over from an earlier loop", min_instances=1)
+    repo = ctx.repo
+    for modname in ("dask_array.io._store", "dask_array.io._to_npy_stack"):
+        m = repo.module(modname)
+        if m is None:
+            continue
+        for f in m.functions.values():
+            nloops = sum(1 for n in body_walk(f.node) if isinstance(n, (ast.For, ast.AsyncFor)))
+            if not nloops:
+                continue
+            uses = stale_loop_uses(ctx, f)
+            # comprehension targets shadow: ignore loads that sit inside a comprehension binding that name
+            comp = set()
+            for c in ast.walk(f.node):
+                if isinstance(c, (ast.ListComp, ast.SetComp, ast.DictComp, ast.GeneratorExp)):
+                    bound = {t.id for g in c.generators for t in ast.walk(g.target) if isinstance(t, ast.Name)}
+                    for x in ast.walk(c):
+                        if isinstance(x, ast.Name) and x.id in bound:
+                            comp.add(id(x))
+            uses = [(n, name, line) for n, name, line in uses if id(n) not in comp]
+            rr.inst(f.construct, loops=nloops, stale_uses=len(uses))
+            for n, name, line in uses:
+                ctx.finding(
+                    rr, f"{f.construct}::{name}",
+                    f"{f.qualname} uses {name!r} at line {n.lineno} inside a loop, but its only binding is the target of the earlier loop at line {line}: every iteration sees that loop's LAST "
+                    f"value (e.g. the last pair's region), so all but the last array are read back / written through the wrong region",
+                    func=f, node=n,
+                )
+    return rr
+
+
+def r25_6(ctx):
+    rr = RuleResult("R25.6", "COVER", "a store node is identified by WHICH target object it writes: its name carries id(target), and the Blockwise token (what parents and dask.compute's finalize node see) covers that name", min_instances=2)
+    repo = ctx.repo
+    f = repo.mod("dask_array.io._store").functions.get("store")
+    need(f is not None, "dask_array/io/_store.py::store")
+    calls = [n for n in body_walk(f.node) if isinstance(n, ast.Call) and (dotted(n.func) or "").rsplit(".", 1)[-1] == "map_blocks" and n.args and (dotted(n.args[0]) or "") == "load_store_chunk"]
+    need(calls, "the map_blocks(load_store_chunk, ...) call in store")
+    for c in calls:
+        target = c.args[2] if len(c.args) > 2 else None
+        kws = {k.arg: k.value for k in c.keywords if k.arg}
+        ident = None
+        for key in ("name", "token"):
+            v = kws.get(key)
+            if v is not None and target is not None:
+                from ..dataflow import Defs
+
+                defs = Defs(f.node)
+                exprs, seen_n = [v], set()
+                for _ in range(3):
+                    for e in list(exprs):
+                        for nm in [x.id for x in ast.walk(e) if isinstance(x, ast.Name) and x.id not in seen_n and x.id in f.local_names]:
+                            seen_n.add(nm)
+                            exprs.extend(defs.defs.get(nm, []))
+                for e in exprs:
+                    for x in ast.walk(e):
+                        if isinstance(x, ast.Call) and dotted(x.func) == "id" and x.args and unparse(x.args[0]) == unparse(target):
+                            ident = key
+        cst = site(f, c)[:120]
+        rr.inst(cst, target=unparse(target) if target is not None else None, identity_in=ident)
+        if ident is None:
+            ctx.finding(
+                rr, cst,
+                f"the store node for target {unparse(target) if target is not None else '?'} is named/tokenized by content only: two distinct targets that currently hold equal data (two fresh "
+                f"np.zeros buffers) give identical nodes, de-duplication by name keeps one, and the other target is never written",
+                func=f, node=c,
+            )
+    from ..namedeps import ALL, token_deps
+
+    bw = repo.find_class("Blockwise")
+    td = token_deps(repo, bw)
+    ok = ALL in td or "name" in td
+    rr.inst(f"{bw.construct}::token covers name", covered=ok)
+    if not ok:
+        tok = bw.methods.get("__dask_tokenize__")
+        ctx.finding(
+            rr, f"{bw.construct}::token covers name",
+            "Blockwise.__dask_tokenize__ does not cover the `name` operand although Blockwise._name (its keys) does: two store nodes that differ only in their identity-carrying name look identical "
+            "to their parents (dask.compute's finalize node), which are then de-duplicated, and one write is dropped",
+            func=tok, node=tok.node if tok else None,
+        )
+    return rr
+
+
 LOCAL_SCHEDULER_NAMES = {"sync", "synchronous", "single-threaded", "threads", "threading"}  # run tasks in this process against the real target
 
 
@@ -148,7 +300,7 @@ def r25_4(ctx):
     return rr
 
 
-RULES = [r25_1, r25_2, r25_3, r25_4]
+RULES = [r25_1, r25_2, r25_3, r25_4, r25_5, r25_6]
 
 LEVEL_TEXT = (
     "Static decision of the structural clauses of C25: the per-block target-slice literals of da.store are computed from a "
